@@ -52,6 +52,19 @@ class Gen:
         return self.r.choice(opts)
 
     def good_num(self, name, lo, hi):
+        # a value used before comes back now and then (added after seed C07h: "the feed is already F<a>" decided against a stale
+        # record -- needs move(F=a), set_feed_rate(b), move(F=a))
+        pool = self.__dict__.setdefault("pools", {}).setdefault(name, [])
+        if pool and self.r.random() < 0.3:
+            v = self.r.choice(pool)
+            if name not in self.bounds or self.bounds[name][0] <= v <= self.bounds[name][1]:
+                return v
+        v = self._good_num(name, lo, hi)
+        pool.append(v)
+        del pool[:-3]
+        return v
+
+    def _good_num(self, name, lo, hi):
         if name in self.bounds:
             blo, bhi = self.bounds[name]
             lo, hi = max(lo, blo), min(hi, bhi)
@@ -352,7 +365,31 @@ class Gen:
         self.last = d
         return d
 
+    def dance(self):
+        """A word set on a move, changed through its own setter, and set back on a move (added after seed C07h): the second
+        move must carry the word again -- two records of 'the value in force' (last move parameter / modal state) exist."""
+        r = self.r
+        if r.random() < 0.6:
+            a, b = self.good_num("feed-rate", 1, 3000), self._good_num("feed-rate", 1, 3000)
+            mid = {"call": "set_feed_rate", "val": b}
+            key = "F"
+        else:
+            a, b = self.good_num("tool-power", 0, 1000), self._good_num("tool-power", 0, 1000)
+            mid = {"call": "set_tool_power", "val": b}
+            key = "S"
+        def mv():
+            ax = [None, None, None]
+            ax[r.randrange(3)] = self.num(0, 20)
+            return {"call": "move", "ax": ax, key: a}
+        return [mv(), mid, mv()]
+
     def _next(self):
+        q = self.__dict__.setdefault("queue", [])
+        if q:
+            return q.pop(0)
+        if self.profile in ("mixed", "motion", "bounds") and self.r.random() < 0.03:
+            q.extend(self.dance())
+            return q.pop(0)
         r = self.r
         p = self.profile
         x = r.random()
